@@ -926,7 +926,8 @@ def _approximately_project_trapezoid(weights, lattice_sizes, units,
     layers = _unstack_nd(weights, [main_dim, cond_dim])
     max_main_dim = lattice_sizes[main_dim] - 1
     same_edgeworth = (main_dim, cond_dim,
-                      cond_direction) in set(edgeworth_trusts or [])
+                      cond_direction) in set(
+                          tuple(t) for t in edgeworth_trusts or [])
     if cond_direction < 0:
       layers = _reverse_second_list_dimension(layers)
     lhs_update, rhs_update = 0, 0
@@ -1905,16 +1906,13 @@ def project_by_dykstra(weights,
     monotonicities = [0] * len(lattice_sizes)
   if unimodalities is None:
     unimodalities = [0] * len(lattice_sizes)
-  if edgeworth_trusts is None:
-    edgeworth_trusts = []
-  if trapezoid_trusts is None:
-    trapezoid_trusts = []
-  if monotonic_dominances is None:
-    monotonic_dominances = []
-  if range_dominances is None:
-    range_dominances = []
-  if joint_monotonicities is None:
-    joint_monotonicities = []
+  # Constraints are used as dictionary keys below. They arrive as lists rather
+  # than tuples when they were restored from a serialized config.
+  edgeworth_trusts = [tuple(c) for c in edgeworth_trusts or []]
+  trapezoid_trusts = [tuple(c) for c in trapezoid_trusts or []]
+  monotonic_dominances = [tuple(c) for c in monotonic_dominances or []]
+  range_dominances = [tuple(c) for c in range_dominances or []]
+  joint_monotonicities = [tuple(c) for c in joint_monotonicities or []]
   if joint_unimodalities is None:
     joint_unimodalities = []
   if units > 1:
